@@ -49,7 +49,8 @@ ById(id) == {c \in Conns : cid[c] = id}
 
 --------------------------------------------------------------------------
 (* unlogged steps, per goroutine *)
-RunSilent == RunLoopHead \/ RunAcceptClosed \/ RunAcceptTempErr
+\* (an address that does not validate fails before the first gate: the failing RunListen has no line then)
+RunSilent == RunLoopHead \/ RunAcceptClosed \/ RunAcceptTempErr \/ (ListenFails /\ RunListen)
 \* a read that dispatches nothing: EOF, shutdown deadline, malformed frame
 ConnSilent(c) == \/ ConnHead(c) \/ ConnHandshake(c)
                  \/ (ConnRead(c) /\ dispatched' = dispatched /\ afterUnbind' = afterUnbind)
@@ -72,7 +73,7 @@ Step(p) ==
     \* ---- Run goroutine
     [] e.ev = "run_call" -> RunStart /\ Consume
     [] IsGate(e, "run.pre_listen") -> run = "prelisten" /\ Same /\ Consume
-    [] IsGate(e, "run.post_listen") -> ~ListenFails /\ RunListen /\ Consume
+    [] IsGate(e, "run.post_listen") -> RunListen /\ Consume           \* (logged whether net.Listen succeeded or not)
     [] IsGate(e, "run.accepted") -> AfterRun(nextID = e.conn /\ (\E c \in Conns : RunAccept(c)) /\ Consume)
     [] IsGate(e, "run.registered") -> ~ctxDone /\ nextID = e.conn /\ RunRegister /\ Consume
     [] e.ev = "run_ret" -> AfterRun(run = "returned" /\ runRes = e.val /\ Same /\ Consume)
